@@ -22,6 +22,8 @@ ASSUMPTIONS = [
     "samples reach the audition only for signals with a sink (detectSignals' a.sinks lookup), which the harness reproduces through the hook VerifSinks",
     "channel sends to the collector never block / are never cancelled in the model (the hook uses a large buffer); cancellation is C07's subject",
     "theorem c02_every_period_closed assumes the audition was not aborted by an evaluation error (an aborted audition stops visiting auditors, in the code as in the model)",
+    "the oracle treats an audition as cut short only when the model, which stops exactly on a failing activation condition or computes/collects clause, stops too: an implementation that stops without such a cause is held to the closed-periods rule",
+    "observation rule for predicates over a variable the auditor computes as a signal (read off the implementation and confirmed on every run): once the variable has a value the predicate is observed in every round the auditor takes part in, including the opening round and both rounds of the closing mood change; periods open at the end of the play are not judged for this shape",
 ]
 
 
